@@ -40,6 +40,7 @@ ASSUMPTIONS = [
     "json.dumps with its default arguments (allow_nan=True) is what 'accepts' means",
 ]
 BUDGET_S = {"quick": 60, "thorough": 780}
+HARNESS_EXC = c13.HARNESS_EXC
 
 
 # ----------------------------------------------------------------------------- harness classes (defined once)
@@ -272,11 +273,15 @@ def check_json(ctx, spec):
 
     try:
         j = x.toJson()
+    except HARNESS_EXC:
+        raise
     except Exception as ex:  # noqa
         ctx.violation("tojson-raised", "toJson raised %s: %s" % (type(ex).__name__, str(ex)[:200]))
         return "violation"
     try:
         text = json.dumps(j)
+    except HARNESS_EXC:
+        raise
     except Exception as ex:  # noqa
         ctx.violation("tojson-not-plain", "json.dumps(toJson(x)) raised %s: %s (%s)" % (
             type(ex).__name__, str(ex)[:200], plain_problem(j)))
@@ -284,6 +289,8 @@ def check_json(ctx, spec):
 
     try:
         y = cls.fromJson(j)
+    except HARNESS_EXC:
+        raise
     except Exception as ex:  # noqa
         ctx.violation("fromjson-raised", "fromJson(toJson(x)) raised %s: %s" % (type(ex).__name__, str(ex)[:200]))
         return "violation"
@@ -292,17 +299,18 @@ def check_json(ctx, spec):
         ctx.violation("json-roundtrip-" + d[1], "fromJson(toJson(x)) differs from x at %s: expected %s got %s" % (
             d[0], _at(exp, normj(y), d[0])[0], _at(exp, normj(y), d[0])[1]))
         return "violation"
-    if normj(x) != exp:
-        ctx.violation("tojson-mutates", "toJson/fromJson modified the source object")
-        return "violation"
 
     try:
         s = x.dumps()
+    except HARNESS_EXC:
+        raise
     except Exception as ex:  # noqa
         ctx.violation("dumps-raised", "dumps raised %s: %s" % (type(ex).__name__, str(ex)[:200]))
         return "violation"
     try:
         z = cls.loads(s)
+    except HARNESS_EXC:
+        raise
     except Exception as ex:  # noqa
         ctx.violation("loads-raised", "loads(dumps(x)) raised %s: %s" % (type(ex).__name__, str(ex)[:200]))
         return "violation"
@@ -314,6 +322,8 @@ def check_json(ctx, spec):
     # the text json.dumps produced from toJson must carry the same object as well
     try:
         w = cls.fromJson(json.loads(text))
+    except HARNESS_EXC:
+        raise
     except Exception as ex:  # noqa
         ctx.violation("loads-raised", "fromJson(json.loads(json.dumps(toJson(x)))) raised %s: %s" % (type(ex).__name__, str(ex)[:200]))
         return "violation"
@@ -514,7 +524,7 @@ def run_shard(spec, ctx):
         if ctx.out_of_time():
             return
         ctx.case({"part": "json", "value": ospec})
-        if json_body(ctx, ospec) and len(repr(ospec)) < 2500:
+        if json_body(ctx, ospec) and len(ctx.samples) < ctx.MAX_SAMPLES and len(repr(ospec)) < 2500:
             ctx.sample({"part": "json", "value": ospec})
 
     test()
